@@ -427,6 +427,13 @@ def rule_retry_loop(ctx, rid, r):
                "the handler re-raises exactly when index == attempts - 1 (checked for attempts in {2,3,4,7})" if exact and tests else
                "the re-raise condition is not `index == attempts - 1`: too few/many attempts or a swallowed final failure",
                " and ".join(norm(t_) for t_, _ in tests))
+    # the wrapper can only end by returning f's value or by raising: no break out of the attempt loop, no bare return
+    # (with "raise exactly on the last index" above, exhausting the loop normally is infeasible)
+    esc = [n_ for n_ in w.own_nodes() if isinstance(n_, ast.Break) or (isinstance(n_, ast.Return) and n_.value is None)]
+    ctx.ob(rid, f"{w.short}/no-fall-through", not esc, loc(w, esc[0]) if esc else loc(w),
+           "no break / bare return: every normal exit of the wrapper returns the value of a successful attempt" if not esc else
+           "the wrapper can leave the attempt loop without re-raising (break / bare return): it returns None as if the call had "
+           "succeeded, dependents run and None is written to the call's store", norm(esc[0]) if esc else "")
     # nothing after the loop returns a value silently
     after = [s for s in w.node.body if s.lineno > lp.lineno]
     ctx.ob(rid, f"{w.short}/nothing-after-loop", not after, loc(w), "no statement after the attempt loop" if not after else
